@@ -127,8 +127,22 @@ func worldSessions(w *World) {
 		switch k := r.Intn(20); {
 		case k < 7: // register
 			name := names[r.Intn(len(names))]
-			hist("%s.reg(%s)", s.c.Name, name)
-			resp, got := s.c.register(M{"proxy_name": name, "proxy_type": "tcp", "remote_port": portOfName(name)})
+			port := portOfName(name)
+			attempts := 1
+			if o := owner[name]; o != nil && r.Intn(3) > 0 {
+				// a taken name asked for with another, free port: only the name can refuse it; a refused client retries
+				port += 10
+				attempts = 1 + r.Intn(3)
+			}
+			hist("%s.reg(%s,port=%d) x%d", s.c.Name, name, port, attempts)
+			var resp M
+			var got bool
+			for a := 0; a < attempts; a++ {
+				resp, got = s.c.register(M{"proxy_name": name, "proxy_type": "tcp", "remote_port": port})
+				if !got || mstr(resp, "error") == "" {
+					break
+				}
+			}
 			w.Check("C12.name-unique")
 			if !got {
 				viol("ownership", "no-reply", "no reply to registration of %s; history: %v", name, history)
@@ -139,6 +153,7 @@ func worldSessions(w *World) {
 			if o := owner[name]; o != nil {
 				if ok {
 					viol("ownership", "duplicate-name-accepted", "proxy name %s is live in session %s and was accepted again for session %s; history: %v", name, o.c.Name, s.c.Name, history)
+					return
 				}
 				probeOwner(name, "after-refused-duplicate")
 			} else {
